@@ -2,7 +2,7 @@
 # dev helper: confirm a sub-agent's seeded change: builds, existing tests pass, demo fails with it and passes without.
 # usage: devtools/verify_seed.sh <Cnn> <a|b> [base.diff]     (reads /tmp/wt/out/<Cnn>/<a|b>.diff, zz_demo_<a|b>_test.go)
 id="$1"; v="$2"; base="$3"
-out=/tmp/wt/out/$id
+out=${OUTDIR:-/tmp/wt2/out}/$id
 S=$(mktemp -d /tmp/seedrepo.XXXXXX)
 rsync -a --exclude .git /repo/ "$S"/
 . /verif/verif-env.sh
